@@ -147,16 +147,19 @@ def importStmt (c : Ctx) (n : Nat) (s : PState) : PR (List Sx) :=
 
 /-! ## literals -/
 
-/-- decode a literal token through the oracle: an error, or the `Meta<Literal>` -/
-def decodeLit (c : Ctx) (sp : Span) (s : PState) : PR Node :=
+/-- decode a literal token through the oracle: an error, or the `Meta<Literal>`.
+Only the escape errors of string and character literals have a location of
+their own (`span.start + 1 + range`, from the oracle); every other decoding
+error (`ParseError::invalid_literal(…, span)`) cites the token's span. -/
+def decodeLit (c : Ctx) (k : TokKind) (sp : Span) (s : PState) : PR Node :=
   match c.lit false sp.1 sp.2 with
-  | some (k, esp) => fail k esp s
+  | some (ek, esp) => fail ek (if k = .string ∨ k = .char then esp else sp) s
   | none => addNode sp (sx "Lit" []) s .ok
 
 /-- `Parser::ip_address` -/
 def ipAddress (c : Ctx) (s : PState) : PR Node :=
   (pnext c s).bind fun r s =>
-    if inTable Gen.ParseFacts.ipAddressArms r.1 then decodeLit c r.2 s else fail .expected r.2 s
+    if inTable Gen.ParseFacts.ipAddressArms r.1 then decodeLit c r.1 r.2 s else fail .expected r.2 s
 
 /-- the slices `simple_literal` takes of the token text `s` before it decodes
 it: `&s[1..s.len() - 1]` (string and character literals: the quotes are cut
@@ -186,7 +189,7 @@ def simpleLiteral (c : Ctx) (s : PState) : PR Node :=
       | .ok _ =>
         match r.1 with
         | .bool _ => addNode r.2 (sx "Lit" []) s .ok
-        | _ => decodeLit c r.2 s
+        | _ => decodeLit c r.1 r.2 s
     else fail .expected r.2 s
 
 /-- `Parser::literal` -/
@@ -281,13 +284,70 @@ def asPath : Sx → Option Sx
 def blockSx (imps stmts : List Sx) (last : Option Sx) : Sx :=
   sx "Block" (sx "Imports" imps.reverse :: stmts.reverse ++ (match last with | some e => [sx "Last" [e]] | none => []))
 
-/-- a non-empty text part of an f-string: `unescape_f_string_part` (oracle),
-then `spans.add(span, FStringPart::String(s))` -/
+/-- where the scan of `unescape_f_string_part` stands -/
+inductive UMode where
+  /-- at the top of the `while let Some((i, c)) = chars.next()` loop -/
+  | normal
+  /-- just read `\`: the next character is consumed whatever it is -/
+  | esc
+  /-- inside `\u{…`, consuming up to and including the `}` -/
+  | uni
+  deriving DecidableEq, Repr
+
+/-- the scan of `unescape_f_string_part` over `s.char_indices().peekable()`: `i`
+is the byte index of the head of the list, `ps` is `piece_start`. The result is
+the list of ranges `piece_start..i` it cuts out of `s` (at every `{{` / `}}`,
+after which `piece_start = i + 2`) and the final `piece_start`. -/
+def uScan : UMode → Nat → Nat → List Char → List (Nat × Nat) → List (Nat × Nat) × Nat
+  | _, _, ps, [], acc => (acc.reverse, ps)
+  | .normal, i, ps, c :: cs, acc =>
+    if c = '\\' then uScan .esc (i + sz c) ps cs acc
+    else if c = '{' ∨ c = '}' then
+      match cs with
+      | d :: ds =>
+        if d = c then uScan .normal (i + sz c + sz d) (i + 2) ds ((ps, i) :: acc)
+        else uScan .normal (i + sz c) ps (d :: ds) acc
+      | [] => (acc.reverse, ps)
+    else uScan .normal (i + sz c) ps cs acc
+  | .esc, i, ps, c :: cs, acc =>
+    if c = 'u' then
+      match cs with
+      | d :: ds => if d = '{' then uScan .uni (i + sz c + sz d) ps ds acc else uScan .normal (i + sz c) ps (d :: ds) acc
+      | [] => (acc.reverse, ps)
+    else uScan .normal (i + sz c) ps cs acc
+  | .uni, i, ps, c :: cs, acc =>
+    if c = '}' then uScan .normal (i + sz c) ps cs acc else uScan .uni (i + sz c) ps cs acc
+
+/-- `&s[a..b]` for every range of the list -/
+def sliceAll (t : List Char) : List (Nat × Nat) → Res Unit
+  | [] => .ok ()
+  | r :: rs =>
+    match slice t r.1 r.2 with
+    | .panic => .panic
+    | .ok _ => sliceAll t rs
+
+/-- the slices `unescape_f_string_part(s, …)` takes of `s`: `&s[piece_start..i]`
+at every doubled brace and `&s[piece_start..]` at the end (each piece is then
+decoded by `unescape_str`: the oracle; an error in one piece returns before the
+later slices are taken, so checking all of them over-approximates the panics) -/
+def fPieces (t : List Char) : Res Unit :=
+  match sliceAll t (uScan .normal 0 0 t []).1 with
+  | .panic => .panic
+  | .ok _ =>
+    match sliceFrom t (uScan .normal 0 0 t []).2 with
+    | .panic => .panic
+    | .ok _ => .ok ()
+
+/-- a non-empty text part of an f-string: `unescape_f_string_part` (its slices,
+then the oracle), then `spans.add(span, FStringPart::String(s))` -/
 def fText (c : Ctx) (sp : Span) (parts : List Sx) (s : PState) : PR (List Sx) :=
   if sp.1 < sp.2 then
-    match c.lit true sp.1 sp.2 with
-    | some (k, esp) => fail k esp s
-    | none => addNode sp (sx "S" []) s fun p s => .ok (p.sx :: parts) s
+    match fPieces (textOf c.src sp) with
+    | .panic => .panic
+    | .ok _ =>
+      match c.lit true sp.1 sp.2 with
+      | some (k, esp) => fail k esp s
+      | none => addNode sp (sx "S" []) s fun p s => .ok (p.sx :: parts) s
   else .ok parts s
 
 def opName (o : BinOp) : String := Pratt.BinOp.name o
